@@ -20,6 +20,7 @@ CONSTANTS
   DEV_Release400,         \* TRUE: a successful release is answered 400
   DEV_RefConcat,          \* TRUE: reference = supi \o consumer \o counter (no separators)
   DEV_NoGuardOnRelease,   \* TRUE: only the update path splits an over-full record
+  DEV_NilRequestedUnitPanics, \* TRUE: an online usage entry without requestedUnit panics in reserve mode
   DEV_KeepReleased        \* TRUE: a released session's reference stays in the subscriber's session map
 
 Min(a, b) == IF a < b THEN a ELSE b
@@ -76,20 +77,21 @@ CCEntry(S, u, us, trig) ==
   IF S.panic THEN S
   ELSE IF ~online
     THEN [st |-> [st EXCEPT !.ue[u] = ue1], mui |-> S.mui, partial |-> part, panic |-> FALSE]
-  ELSE IF slot1.rtype = "reserve" /\ us.req < 0
+  ELSE IF slot1.rtype = "reserve" /\ us.req < 0 /\ DEV_NilRequestedUnitPanics
     \* unitUsage.RequestedUnit is dereferenced unconditionally in the reserve branch: nil -> panic
     THEN [st |-> [st EXCEPT !.ue[u] = [ue1 EXCEPT !.rg[g] = [slot1 EXCEPT !.ucost = cost]]],
           mui |-> S.mui, partial |-> part, panic |-> TRUE]
   ELSE IF slot1.rtype = "reserve" THEN
-    LET usedQ == used * cost
-        reqQ  == us.req * cost
+    LET reqV  == Max(us.req, 0)            \* requestedUnit absent: nothing is asked for
+        usedQ == used * cost
+        reqQ  == reqV * cost
         r1    == slot1.reserved - usedQ
         need  == IF DEV_GrantFromRequest THEN ~(r1 > 0) ELSE r1 < reqQ
         ask   == IF DEV_GrantFromRequest THEN (0 - r1) + reqQ ELSE reqQ - r1
         ab    == IF need THEN AbmfReserve(acc.quota, ask) ELSE [quota |-> acc.quota, granted |-> 0, fui |-> FALSE]
         r2    == r1 + ab.granted
         mq    == IF DEV_GrantFromRequest THEN reqQ ELSE Min(reqQ, Max(r2, 0))
-        grant == Min(RateReserveAllowed(mq, cost), us.req)
+        grant == Min(RateReserveAllowed(mq, cost), reqV)
         slot2 == [slot1 EXCEPT !.reserved = r2, !.ucost = cost, !.reqnum = @ + 1,
                                !.rtype = IF ab.fui THEN "debit" ELSE @]
         info  == [rg |-> g, granted |-> grant, fui |-> ab.fui]
